@@ -29,6 +29,10 @@ HOSTILE = [u"<", u">", u"&", u"\"", u"'", u"]]>", u"\x01", u"\x0b", u"\x1b[31m",
            u"<![CDATA[", u"&amp;", u"\t", u"\x00", u"\x1f", u"]]", u"]]\x1b[0m>", u"]\x1b[1m]>"]
 
 
+# characters for the text of undefined steps: none of them is a line boundary for str.splitlines()
+UNDEF_HOSTILE = [u"\x01", u"\x07", u"\x1b[31m", u"\x7f", u"\ufffe", u"<", u"&", u"\"", u"]]>"]
+
+
 # ---------------------------------------------------------------------------
 # tag expressions (model-owned AST)
 # ---------------------------------------------------------------------------
@@ -337,6 +341,9 @@ def gen_step(rng, lib, last_type, first, opts):
     undefined = rng.random() < opts["p_undefined"] or not cands
     if undefined:
         text = "zz%d nothing matches this" % rng.randint(0, 99)
+        if opts.get("hostile_undefined") and rng.random() < 0.5:
+            # (seeded change R11C-C16-b) XML-illegal characters in the text of an UNDEFINED step
+            text = text.replace("matches", "".join(rng.choice(UNDEF_HOSTILE) for _ in range(rng.randint(1, 2))) + " matches")
         did = None
     else:
         d = rng.choice(cands)
@@ -935,6 +942,7 @@ def gen_world(seed, overrides=None, profile=None):
                 max_items=so["max_items"], min_steps=so["min_steps"],
                 max_steps=so["max_steps"])
     opts["hostile_names"] = bool(dims.get("hostile"))
+    opts["hostile_undefined"] = bool(dims.get("hostile_undefined"))
     opts["table_mutation"] = bool(dims.get("table_mutation"))
     opts.update(dims.get("opts", {}))
     nfeat = rng.randint(*so["nfeat"])
